@@ -290,3 +290,18 @@ package iterable
 //@   ensures r1 ==> has(im.vals, r0) && forall(j, K, has(im.vals, j) ==> im.aord(r0) <= im.aord(j))
 //@   ensures !r1 ==> forall(j, K, !has(im.vals, j))
 //@   ensures r1 == (len(im.vals) > 0)
+
+// ---- C11: nothing is retained beyond live entries and pinned ones ----
+// every node in the list is the sentinel, a live entry, or a removed entry pinned by an open iterator (refCnt > 0)
+//@ lemma func lemmaRetention(im *Map[K, V], n *rlItem[K, V]) bool
+//@   props C11
+//@   requires im.wf() && im.owns(n)
+//@   ensures n == im.last || (n.state == rlOk && has(im.vals, n.key) && im.vals[n.key] == n) || (n.state == rlDeleted && n.refCnt > 0)
+func lemmaRetention[K comparable, V any](im *Map[K, V], n *rlItem[K, V]) bool { return true }
+
+// with no open iterator (all reference counts zero) the list is exactly the live entries plus the sentinel
+//@ lemma func lemmaQuietNoGarbage(im *Map[K, V], n *rlItem[K, V]) bool
+//@   props C11
+//@   requires im.wf() && im.quiet() && im.owns(n)
+//@   ensures n == im.last || (n.state == rlOk && has(im.vals, n.key) && im.vals[n.key] == n)
+func lemmaQuietNoGarbage[K comparable, V any](im *Map[K, V], n *rlItem[K, V]) bool { return true }
